@@ -56,7 +56,7 @@ type c18SearchCase struct {
 func TestVerifC18Search(t *testing.T) {
 	rec := ev.New("C18", "epoch-search")
 	defer rec.Flush()
-	rec.Rule("findEpochNumberFromSignature over 2..4 epochs x every per-epoch behaviour vector {found, not-present, index-error, present-but-not-indexed} x concurrency {-1,1,2,3,NumCPU} x seeded stub latencies; distinct = (vector, concurrency)")
+	rec.Rule("findEpochNumberFromSignature over 2..4 epochs x every per-epoch behaviour vector {found, not-present, index-error, present-but-not-indexed} x concurrency {-1,1,2,3,NumCPU} x seeded stub latencies; plus seeded histories on one long-lived MultiEpoch (add / remove / replace in place / swap keeping the count, searches in between) judged against the epoch set loaded at each search; distinct = (vector, concurrency) and (last operation, loaded kinds)")
 	dir := filepath.Join(ev.Scratch(), "c18s")
 	os.MkdirAll(dir, 0o755)
 	defer os.RemoveAll(dir)
@@ -95,6 +95,7 @@ func TestVerifC18Search(t *testing.T) {
 		withIdx[e] = mkIndex(uint64(10+e), true)
 		withoutIdx[e] = mkIndex(uint64(10+e), false)
 	}
+	c18SearchHistories(rec, rng, sig, withIdx[:], withoutIdx[:])
 	concs := []int{-1, 1, 2, 3, runtime.NumCPU()}
 	reps := ev.Pick(3, 20)
 	for k := 2; k <= maxE; k++ {
@@ -202,4 +203,159 @@ func TestVerifC18Search(t *testing.T) {
 			}
 		}
 	}
+}
+
+type c18HistOp struct {
+	Op    string `json:"op"` // add | remove | replace | swap (remove X + add Y) | search
+	Epoch int    `json:"epoch,omitempty"`
+	To    int    `json:"to,omitempty"`
+	Kind  int    `json:"kind,omitempty"`
+}
+
+type c18HistCase struct {
+	Ops  []c18HistOp `json:"ops"`
+	Conc int         `json:"concurrency"`
+}
+
+// c18SearchHistories: one long-lived MultiEpoch whose epoch set changes between searches (epochs added,
+// removed, replaced in place, swapped without changing the count).  Every search is judged against the
+// epoch set loaded at that moment.
+func c18SearchHistories(rec *ev.Recorder, rng *rand.Rand, sig solana.Signature, withIdx, withoutIdx []*indexes.SigToCid_Reader) {
+	nHist := ev.Pick(300, 6000)
+	searches, mutations := 0, 0
+	for h := 0; h < nHist && !rec.Enough(); h++ {
+		conc := []int{-1, 1, 2, runtime.NumCPU()}[rng.Intn(4)]
+		multi := NewMultiEpoch(&Options{EpochSearchConcurrency: conc})
+		state := map[int]int{} // slot 0..3 -> kind
+		mk := func(slot, kind int) *Epoch {
+			idx := withoutIdx[slot]
+			if kind == 0 {
+				idx = withIdx[slot]
+			}
+			return &Epoch{epoch: uint64(10 + slot), sigExists: &c18Stub{kind: kind, yield: rng.Intn(3)}, sigToCidIndex: idx}
+		}
+		c := c18HistCase{Conc: conc}
+		// kinds biased to not-present so that a single holder of the signature moves around
+		kindOf := func() int {
+			if rng.Intn(3) == 0 {
+				return 0
+			}
+			return []int{1, 1, 3, 2}[rng.Intn(4)]
+		}
+		for step := 0; step < 14; step++ {
+			var op c18HistOp
+			var loaded, free []int
+			for sl := 0; sl < 4; sl++ {
+				if _, ok := state[sl]; ok {
+					loaded = append(loaded, sl)
+				} else {
+					free = append(free, sl)
+				}
+			}
+			r := rng.Intn(10)
+			switch {
+			case len(loaded) < 2 || (r < 2 && len(free) > 0):
+				op = c18HistOp{Op: "add", Epoch: free[rng.Intn(len(free))], Kind: kindOf()}
+				if err := multi.AddEpoch(uint64(10+op.Epoch), mk(op.Epoch, op.Kind)); err != nil {
+					rec.Violation("MultiEpoch.AddEpoch/error", err.Error(), c)
+					return
+				}
+				state[op.Epoch] = op.Kind
+				mutations++
+			case r < 3 && len(loaded) > 2:
+				op = c18HistOp{Op: "remove", Epoch: loaded[rng.Intn(len(loaded))]}
+				multi.RemoveEpoch(uint64(10 + op.Epoch))
+				delete(state, op.Epoch)
+				mutations++
+			case r < 5:
+				op = c18HistOp{Op: "replace", Epoch: loaded[rng.Intn(len(loaded))], Kind: kindOf()}
+				if err := multi.ReplaceEpoch(uint64(10+op.Epoch), mk(op.Epoch, op.Kind)); err != nil {
+					rec.Violation("MultiEpoch.ReplaceEpoch/error", err.Error(), c)
+					return
+				}
+				state[op.Epoch] = op.Kind
+				mutations++
+			case r < 7 && len(free) > 0:
+				op = c18HistOp{Op: "swap", Epoch: loaded[rng.Intn(len(loaded))], To: free[rng.Intn(len(free))], Kind: kindOf()}
+				multi.RemoveEpoch(uint64(10 + op.Epoch))
+				delete(state, op.Epoch)
+				if err := multi.AddEpoch(uint64(10+op.To), mk(op.To, op.Kind)); err != nil {
+					rec.Violation("MultiEpoch.AddEpoch/error", err.Error(), c)
+					return
+				}
+				state[op.To] = op.Kind
+				mutations++
+			default:
+				op = c18HistOp{Op: "search"}
+			}
+			c.Ops = append(c.Ops, op)
+			if op.Op != "search" && rng.Intn(2) == 0 {
+				continue
+			}
+			if op.Op != "search" {
+				c.Ops = append(c.Ops, c18HistOp{Op: "search"})
+			}
+			type sres struct {
+				got uint64
+				err error
+			}
+			sch := make(chan sres, 1)
+			go func() {
+				g, e := multi.findEpochNumberFromSignature(context.Background(), sig)
+				sch <- sres{g, e}
+			}()
+			var got uint64
+			var err error
+			select {
+			case r := <-sch:
+				got, err = r.got, r.err
+			case <-time.After(20 * time.Second):
+				rec.Inconclusive("history search did not return within the watchdog")
+				return
+			}
+			searches++
+			rec.Eval(1)
+			anyFound, anyErr := false, false
+			sk := ""
+			for sl := 0; sl < 4; sl++ {
+				k, ok := state[sl]
+				if !ok {
+					sk += "-"
+					continue
+				}
+				sk += fmt.Sprint(k)
+				anyFound = anyFound || k == 0
+				anyErr = anyErr || k == 2
+			}
+			rec.Distinct("hist/" + op.Op + "/" + sk)
+			cc := c18HistCase{Conc: conc, Ops: append([]c18HistOp(nil), c.Ops...)}
+			switch {
+			case len(state) == 1:
+				// documented short cut: with one epoch loaded the search answers that epoch
+			case anyFound:
+				if err != nil {
+					rec.Violation("findEpochNumberFromSignature/history/miss-despite-hit", fmt.Sprintf("loaded epochs (kinds by slot) %s: an epoch holds the signature but the search returned %v", sk, err), cc)
+				} else if k, ok := state[int(got)-10]; !ok || k != 0 {
+					rec.Violation("findEpochNumberFromSignature/history/wrong-epoch", fmt.Sprintf("loaded epochs %s: returned epoch %d which does not hold the signature / is not loaded", sk, got), cc)
+				}
+			case anyErr:
+				if err == nil {
+					rec.Violation("findEpochNumberFromSignature/history/success-without-hit", fmt.Sprintf("loaded epochs %s: returned epoch %d although no loaded epoch holds the signature", sk, got), cc)
+				} else if errors.Is(err, ErrNotFound) {
+					rec.Violation("findEpochNumberFromSignature/history/error-reported-as-not-found", fmt.Sprintf("loaded epochs %s: %v", sk, err), cc)
+				}
+			default:
+				if err == nil {
+					rec.Violation("findEpochNumberFromSignature/history/success-without-hit", fmt.Sprintf("loaded epochs %s: returned epoch %d although no loaded epoch holds the signature", sk, got), cc)
+				} else if !errors.Is(err, ErrNotFound) {
+					rec.Violation("findEpochNumberFromSignature/history/not-found-reported-as-error", fmt.Sprintf("loaded epochs %s: %v", sk, err), cc)
+				}
+			}
+		}
+		if h%211 == 0 {
+			rec.Sample(c)
+		}
+	}
+	rec.Count("history_searches", searches)
+	rec.Count("history_epoch_set_changes", mutations)
 }
